@@ -38,7 +38,7 @@ S(id="HT.empty", props=["C19", "C12"], harness="h_empty", mode="U", loops=True, 
 S(id="HT.delete", props=["C19", "C12", "C14"], harness="h_delete", mode="L", enforce=["delete_hash_table/delete_c"],
   functions=["delete_hash_table"], what="both blocks released exactly once", **HT)
 S(id="HT.find", props=["C19", "C12"], harness="h_find", mode="U", loops=True, n_loops=1, canaries=2, enforce=["find_hash_table_entry/find_c"],
-  functions=["find_hash_table_entry"], weight=5, split=12, timeout=400,
+  replace=["expand_hash_table/expand_unreachable_c"], functions=["find_hash_table_entry"], weight=5, timeout=600,
   what="in-bounds aligned result, never a DELETED slot, non-empty result was accepted by eq, count+1 iff reserved, an arbitrary other slot unchanged (deleted slot reused is cleared)", **HT)
 S(id="HT.remove", props=["C19", "C12"], harness="h_remove", mode="L", enforce=["remove_element_from_hash_table_entry/remove_c"],
   replace=["find_hash_table_entry/find_for_remove_c"], functions=["remove_element_from_hash_table_entry"],
@@ -97,3 +97,23 @@ S(id="G.pl.create", props=["C14", "C12"], spec="parse.spec.c", harness="h_pl_cre
   what="UB.pl: size computation does not overflow for toks_len < INT_MAX/32; fresh list of 2*(toks_len+1) slots")
 S(id="G.pl.fin", props=["C14"], spec="parse.spec.c", harness="h_pl_fin", mode="L", canaries=2, enforce=["pl_fin/pl_fin_c"], functions=["pl_fin"],
   what="list released once and pointer reset (PLINV)")
+
+# ---------------- C15 / C12: token layer ----------------
+S(id="TOK.find", props=["C15", "C12"], spec="tok.spec.c", harness="h_find_by_code", mode="L", canaries=2, enforce=["symb_find_by_code/find_by_code_c"],
+  replace=["find_hash_table_entry/find_code_c"], functions=["symb_find_by_code"],
+  what="with VEC_INV at the slot read (or TABLE_INV of the code table): result is NULL or a terminal with exactly that code; outside [start,end) NULL; no access outside the vector",
+  assumes=["TABLE_INV: a hit of the code hash table is a terminal with the looked-up code (HT.abs + symb_code_eq)"])
+S(id="TOK.vec", props=["C15", "C12"], spec="tok.spec.c", harness="h_finish_terms", mode="B", dfcc=True, loops=True, n_loops=1, canaries=2,
+  params={"quick": {"NT": 3, "SPAN": 12}, "thorough": {"NT": 5, "SPAN": 40}}, timeout=1500,
+  cbmc=["--unwindset", "symb_finish_adding_terms.0:5,symb_finish_adding_terms.1:5,h_finish_terms.0:5,h_finish_terms.1:5,h_finish_terms.2:5", "--unwinding-assertions"],
+  cbmc_thorough=["--unwindset", "symb_finish_adding_terms.0:7,symb_finish_adding_terms.1:7,h_finish_terms.0:7,h_finish_terms.1:7,h_finish_terms.2:7", "--unwinding-assertions"],
+  bound="<= 3 (thorough 5) terminals with distinct codes >= -2, either all within 12 (thorough 40) of the smallest or at least one >= 9998 (no vector); the NULL-fill loop is closed by its loop contract",
+  functions=["symb_finish_adding_terms", "term_get"],
+  what="VEC_INV established for every slot (ghost index): NULL or the terminal with exactly that code; every declared terminal found at its code; span arithmetic without overflow")
+S(id="TOK.add", props=["C15", "C12"], spec="tok.spec.c", harness="h_tok_add", mode="L", enforce=["tok_add/tok_add_c"],
+  replace=["symb_find_by_code/find_by_code_use_c", "verif_error_exit/err_tok_c", "_VLO_expand_memory/vlo_expand_use_c"], functions=["tok_add"],
+  what="unknown code exits with YAEP_INVALID_TOKEN_CODE (exit assertion: the lookup returned NULL, error recorded in this object); known code appended as (terminal with exactly that code, attr)",
+  assumes=["A5: contract of _VLO_expand_memory assumed"])
+S(id="TOK.read", props=["C15"], spec="tok.spec.c", harness="h_read_toks", mode="U", loops=True, n_loops=1, enforce=["read_toks/read_toks_c"],
+  replace=["tok_add/tok_add_use_c"], functions=["read_toks"],
+  what="every non-negative code delivered by read_token is passed to tok_add unchanged; reading stops at the first negative code; the end marker with NULL attribute is appended last; read_token is not called again")
